@@ -1,7 +1,12 @@
 package main
 
 import (
+	"flag"
 	"go/ast"
+	"io/ioutil"
+	"path/filepath"
+	"regexp"
+	"sort"
 	"strings"
 
 	. "verifharness/tlib"
@@ -54,7 +59,108 @@ func init() {
 		}
 		e.P("/-- wsp Session.process: writes of the reply buffer to the control channel per loop iteration -/")
 		e.P("def wspReplyWrites : Nat := %d", n)
+		// the SET of writers: every place of the two session packages where a connection of a session is
+		// written, flushed, handed to a callee or aliased
+		e.P("/-- every use of a session connection (`.conn`, `.wsconn`, `.dataChannel`) in service/rtsp and service/wsp that is not")
+		e.P("    a read / address / deadline / close call: (file, function, call or assignment), sorted -/")
+		e.P("def connUses : List String := %s", LeanStrList(connUses(e)))
 	})
+}
+
+var connField = regexp.MustCompile(`\.(conn|wsconn|dataChannel)$`)
+
+// methods of a connection that neither put bytes on it nor hand it on
+var connNeutral = map[string]bool{"RemoteAddr": true, "LocalAddr": true, "Close": true, "Reader": true, "Read": true,
+	"SetReadDeadline": true, "SetDeadline": true, "Path": true, "Username": true, "Subprotocol": true, "Buffered": true}
+
+// connUses lists, over all non-test files of service/rtsp and service/wsp (the pull client's own
+// connection to a camera included: it is a `.conn` too), every call on a session connection that is
+// not neutral, every call that receives such a connection as an argument, and every place where
+// one is copied into another variable, field or composite literal.
+func connUses(e *Emitter) []string {
+	root := "/repo"
+	if f := flag.Lookup("repo"); f != nil {
+		root = f.Value.String()
+	}
+	var out []string
+	for _, dir := range []string{"service/rtsp", "service/wsp"} {
+		fis, err := ioutil.ReadDir(filepath.Join(root, dir))
+		if err != nil {
+			e.Unknown("connUses:" + dir)
+			continue
+		}
+		for _, fi := range fis {
+			name := fi.Name()
+			if fi.IsDir() || !strings.HasSuffix(name, ".go") || strings.HasSuffix(name, "_test.go") {
+				continue
+			}
+			f := Parse(dir + "/" + name)
+			if f == nil {
+				e.Unknown("connUses:" + dir + "/" + name)
+				continue
+			}
+			for _, d := range f.Decls {
+				fd, ok := d.(*ast.FuncDecl)
+				if !ok || fd.Body == nil {
+					continue
+				}
+				fn := fd.Name.Name
+				if fd.Recv != nil && len(fd.Recv.List) > 0 {
+					fn = strings.TrimPrefix(Src(fd.Recv.List[0].Type), "*") + "." + fn
+				}
+				add := func(what string) {
+					out = append(out, dir+"/"+name+":"+fn+": "+strings.Join(strings.Fields(what), " "))
+				}
+				isConn := func(x ast.Expr) bool { return connField.MatchString(strings.Join(strings.Fields(Src(x)), "")) }
+				ast.Inspect(fd.Body, func(n ast.Node) bool {
+					switch x := n.(type) {
+					case *ast.CallExpr:
+						if sel, ok := x.Fun.(*ast.SelectorExpr); ok && isConn(sel.X) && !connNeutral[sel.Sel.Name] {
+							add(Src(x))
+							return true
+						}
+						for _, a := range x.Args {
+							if isConn(a) {
+								add(Src(x))
+								break
+							}
+						}
+					case *ast.AssignStmt:
+						for _, r := range x.Rhs {
+							if isConn(r) {
+								add(Src(x))
+							}
+						}
+					case *ast.ValueSpec:
+						for _, r := range x.Values {
+							if isConn(r) {
+								add("var " + Src(x))
+							}
+						}
+					case *ast.CompositeLit:
+						for _, el := range x.Elts {
+							v := el
+							if kv, ok := el.(*ast.KeyValueExpr); ok {
+								v = kv.Value
+							}
+							if isConn(v) {
+								add(Src(x))
+							}
+						}
+					case *ast.ReturnStmt:
+						for _, r := range x.Results {
+							if isConn(r) {
+								add(Src(x))
+							}
+						}
+					}
+					return true
+				})
+			}
+		}
+	}
+	sort.Strings(out)
+	return out
 }
 
 func calls(n ast.Node) []string {
@@ -128,6 +234,9 @@ func program(fd *ast.FuncDecl, ws int) ([]string, bool) {
 	ok := true
 	var out []string
 	var deferred []string
+	// `defer X.lockW.Unlock()`: the section ends at every return that follows; such a return is
+	// reported as "return-unlocks" and the unlock is placed at the end of the program
+	deferUnlock := false
 	var walk func(stmts []ast.Stmt)
 	exprOps := func(n ast.Node) {
 		for _, c := range calls(n) {
@@ -160,7 +269,11 @@ func program(fd *ast.FuncDecl, ws int) ([]string, bool) {
 				// a guarded early return
 				if n := len(s.Body.List); n > 0 {
 					if _, isRet := s.Body.List[n-1].(*ast.ReturnStmt); isRet && s.Else == nil {
-						out = append(out, "return-if:"+cond)
+						if deferUnlock {
+							out = append(out, "return-unlocks") // the condition is not needed by any obligation
+						} else {
+							out = append(out, "return-if:"+cond)
+						}
 						sub := out
 						out = nil
 						walk(s.Body.List)
@@ -180,7 +293,9 @@ func program(fd *ast.FuncDecl, ws int) ([]string, bool) {
 					walk([]ast.Stmt{el})
 				}
 			case *ast.DeferStmt:
-				if op := classify(strings.Join(strings.Fields(Src(s.Call)), " ")); op != "" {
+				if op := classify(strings.Join(strings.Fields(Src(s.Call)), " ")); op == "unlock:lockW" {
+					deferUnlock = true
+				} else if op != "" {
 					deferred = append([]string{op}, deferred...)
 				}
 			case *ast.BlockStmt:
@@ -191,6 +306,9 @@ func program(fd *ast.FuncDecl, ws int) ([]string, bool) {
 		}
 	}
 	walk(fd.Body.List)
+	if deferUnlock {
+		out = append(out, "unlock:lockW")
+	}
 	for _, d := range deferred {
 		out = append(out, "deferred:"+d)
 	}
